@@ -263,4 +263,98 @@ theorem admission_sound (s : State) (hk : KeysOK s) (m : Msg) (ha : (deliver s m
   case sessEnd => obtain ⟨x, h1, h2, h3⟩ := sessEnd_guard hh; exact ⟨x, h1, h2, h3.symm⟩
   case swap => obtain ⟨h1, h2, h3⟩ := swap_guard hh; exact ⟨h1, h2, h3⟩
 
+/-! ## Completeness: a well-formed request that meets its admission rule is accepted -/
+
+theorem require_true (m : String) : require true m = .ok () := rfl
+theorem orReject_some {α : Type} (a : α) (m : String) : orReject (some a) m = .ok a := rfl
+theorem orPanic_some {α : Type} (a : α) (m : String) : orPanic (some a) m = .ok a := rfl
+
+theorem validStatus_ok {status : Int} {allowed : List Status} (h : validStatus status allowed = .ok ()) :
+    ∃ st, statusOfInt status = some st ∧ st.IsOneOf allowed = true := by
+  unfold validStatus at h
+  split at h
+  · rename_i st hs; exact ⟨st, hs, require_eq_ok.mp h⟩
+  · simp [reject] at h
+
+theorem accept_of_handle {s : State} {m : Msg} (hv : m.validateBasic = .ok ()) (h : ∃ s', m.handle (clr s) = .ok s') :
+    (deliver s m).2 = .accept := by
+  obtain ⟨s', hs'⟩ := h
+  rw [deliver_of_ok hv hs']
+
+theorem planCreate_complete (s : State) (frm : TextAddr) (dur gb : Int) (prices : Option Coins)
+    (hv : (Msg.planCreate frm dur gb prices).validateBasic = .ok ()) (hok : PlanCreateOK s frm.bytes) :
+    (deliver s (.planCreate frm dur gb prices)).2 = .accept := by
+  obtain ⟨p, hp⟩ := hok
+  have hprov : hasProvider (clr s) frm.bytes = true := (hasProvider_iff _ _).mpr ⟨p, hp⟩
+  apply accept_of_handle hv
+  simp only [Msg.handle, planCreate, hprov, require_true, ok_bind, setPlan, pure_bind']
+  exact ⟨_, rfl⟩
+
+theorem planStatus_complete (s : State) (frm : TextAddr) (id : Nat) (status : Int)
+    (hv : (Msg.planStatus frm id status).validateBasic = .ok ()) (hok : PlanOwnedBy s frm.bytes id) :
+    (deliver s (.planStatus frm id status)).2 = .accept := by
+  obtain ⟨p, hp, hf⟩ := hok
+  have hp' : getPlan (clr s) id = some p := hp
+  have hv' := hv
+  simp only [Msg.validateBasic, bind_eq_ok, require_eq_ok] at hv'
+  obtain ⟨_, _, _, _, hst⟩ := hv'
+  obtain ⟨st, hs, hone⟩ := validStatus_ok hst
+  have hdec : decide (frm.bytes = p.prov) = true := by simp [hf]
+  apply accept_of_handle hv
+  simp only [Status.IsOneOf, Status.Equal, List.any_cons, List.any_nil, Bool.or_false, Bool.or_eq_true, beq_iff_eq] at hone
+  rcases hone with rfl | rfl
+  · simp only [Msg.handle, planStatus, hp', orReject_some, ok_bind, hdec, require_true, hs, Option.getD_some, setPlan, pure_bind']
+    exact ⟨_, rfl⟩
+  · simp only [Msg.handle, planStatus, hp', orReject_some, ok_bind, hdec, require_true, hs, Option.getD_some, setPlan, pure_bind']
+    exact ⟨_, rfl⟩
+
+theorem planLink_complete (s : State) (frm node : TextAddr) (id : Nat)
+    (hv : (Msg.planLink frm id node).validateBasic = .ok ()) (hok : PlanLinkOK s frm.bytes id node.bytes) :
+    (deliver s (.planLink frm id node)).2 = .accept := by
+  obtain ⟨⟨p, hp, hf⟩, n, hn⟩ := hok
+  have hp' : getPlan (clr s) id = some p := hp
+  have hnode : hasNode (clr s) node.bytes = true := (hasNode_iff _ _).mpr ⟨n, hn⟩
+  have hdec : decide (frm.bytes = p.prov) = true := by simp [hf]
+  apply accept_of_handle hv
+  simp only [Msg.handle, planLink, hp', orReject_some, ok_bind, hdec, require_true, hnode]
+  exact ⟨_, rfl⟩
+
+theorem planUnlink_complete (s : State) (frm node : TextAddr) (id : Nat)
+    (hv : (Msg.planUnlink frm id node).validateBasic = .ok ()) (hok : PlanOwnedBy s frm.bytes id) :
+    (deliver s (.planUnlink frm id node)).2 = .accept := by
+  obtain ⟨p, hp, hf⟩ := hok
+  have hp' : getPlan (clr s) id = some p := hp
+  have hdec : decide (frm.bytes = p.prov) = true := by simp [hf]
+  apply accept_of_handle hv
+  simp only [Msg.handle, planUnlink, hp', orReject_some, ok_bind, hdec, require_true]
+  exact ⟨_, rfl⟩
+
+theorem nodeStatus_complete (s : State) (frm : TextAddr) (status : Int)
+    (hv : (Msg.nodeStatus frm status).validateBasic = .ok ()) (hok : NodeOwnOK s frm.bytes) :
+    (deliver s (.nodeStatus frm status)).2 = .accept := by
+  obtain ⟨n, hn⟩ := hok
+  have hn' : getNode (clr s) frm.bytes = some n := hn
+  have hv' := hv
+  simp only [Msg.validateBasic, bind_eq_ok] at hv'
+  obtain ⟨_, _, hst⟩ := hv'
+  obtain ⟨st, hs, hone⟩ := validStatus_ok hst
+  apply accept_of_handle hv
+  simp only [Status.IsOneOf, Status.Equal, List.any_cons, List.any_nil, Bool.or_false, Bool.or_eq_true, beq_iff_eq] at hone
+  rcases hone with rfl | rfl
+  · simp only [Msg.handle, nodeStatus, hn', orReject_some, ok_bind, hs, Option.getD_some, setNode, pure_bind']
+    exact ⟨_, rfl⟩
+  · simp only [Msg.handle, nodeStatus, hn', orReject_some, ok_bind, hs, Option.getD_some, setNode, pure_bind']
+    exact ⟨_, rfl⟩
+
+theorem sessEnd_complete (s : State) (frm : TextAddr) (id rating : Nat)
+    (hv : (Msg.sessEnd frm id rating).validateBasic = .ok ()) (hok : SessEndOK s frm.bytes id) :
+    (deliver s (.sessEnd frm id rating)).2 = .accept := by
+  obtain ⟨x, hx, hst, hf⟩ := hok
+  have hx' : (clr s).sessions.get id = some x := hx
+  have hdec : decide (frm.bytes = x.addr) = true := by simp [hf]
+  have hdec2 : decide (x.status = Status.StatusActive) = true := by simp [hst]
+  apply accept_of_handle hv
+  simp only [Msg.handle, sessEnd, hx', orReject_some, ok_bind, hdec, hdec2, require_true]
+  exact ⟨_, rfl⟩
+
 end Hub.Props.C08
